@@ -6,7 +6,7 @@
   correspondence check observes it at the sync points handler.subscribed / handler.announce and
   the broadcast of `<name>.registered`.
 -/
-import XsProofs.Registry
+import XsProofs.ServeSys
 namespace Xs.C16
 open Xs.Serve
 
@@ -98,6 +98,27 @@ theorem every_register_answered_once (parse : SFrame → Except String (HCfg × 
         startHandler parse name stream r = (stream ++ [unregistered cfg f none], none)) :=
   start_answers_once parse name stream r
 
+/-- the closed system (XsModel/ServeSys.lean: clients and other handlers append anything but the
+    instance's stop announcement, the instance is handed its subscription frame by frame and its
+    output goes back into the same stream): for every interleaving, the instance *is* `Handler.run`
+    over what it has been handed, and what it emitted is in the stream -/
+theorem closed_system_instance_is_run (cfg : HCfg) (eval : σ → SFrame → σ × EvalRes)
+    (pre : List SFrame) (env0 : σ) (as : List LAct) (s : LiveSys σ)
+    (e : lrun cfg eval pre (LiveSys.init env0) as = some s) :
+    (run cfg eval .running env0 ((s.input cfg pre).take s.pos)).1 = s.st ∧
+    (run cfg eval .running env0 ((s.input cfg pre).take s.pos)).2.1 = s.env ∧
+    (run cfg eval .running env0 ((s.input cfg pre).take s.pos)).2.2.1 = s.outs ∧
+    (∀ g ∈ s.outs, g ∈ s.live) := closed_system_is_run cfg eval pre env0 as s e
+
+/-- each stop is announced, and only a stop is: in the closed system, once the instance has been
+    handed everything there is, a `<name>.unregistered` naming it is in the stream exactly when it
+    has stopped -/
+theorem announcement_in_stream_iff_stopped (cfg : HCfg) (eval : σ → SFrame → σ × EvalRes)
+    (hno : NoSelfAnnounce cfg eval) (pre : List SFrame) (env0 : σ) (as : List LAct) (s : LiveSys σ)
+    (e : lrun cfg eval pre (LiveSys.init env0) as = some s) (hq : s.quiescent cfg pre) :
+    (∃ g ∈ s.live, announces cfg g = true) ↔ s.st = .stopped :=
+  announced_iff_stopped cfg eval hno pre env0 as s e hq
+
 /-- the start-up scan keeps at most one registration per (context, name) -/
 theorem one_registration_per_key (h : List SFrame) : ((compactTable h).map (·.key)).Nodup :=
   compact_one_per_key h
@@ -109,5 +130,16 @@ example :
     let r := run cfg eval .running () [{ topic := "a", ctx := 0, id := 6 }, { topic := "h.register", ctx := 0, id := 7 },
       { topic := "b", ctx := 0, id := 8 }]
     (r.1, r.2.2.1.map (·.topic)) = (HState.stopped, ["h.out", "h.unregistered"]) := by decide
+
+/-- non-vacuity of the closed system: a client frame, the instance's answer going back into the
+    stream and being skipped, a replacing `.register`, the stop announcement - and quiescence -/
+example :
+    let cfg : HCfg := { id := 5, ctx := 0, name := "h" }
+    let eval : Unit → SFrame → Unit × EvalRes := fun _ _ => ((), .ok [] (.value "1"))
+    let r := lrun cfg eval [] (LiveSys.init ())
+      [.envAppend { topic := "a", ctx := 0, id := 6 }, .instStep, .instStep,
+       .envAppend { topic := "h.register", ctx := 0, id := 8 }, .instStep, .instStep]
+    (r.map (fun s => (s.st, s.pos, s.live.map (·.topic), decide (s.pos = (s.input cfg []).length)))) =
+      some (HState.stopped, 4, ["a", "h.out", "h.register", "h.unregistered"], true) := by decide
 
 end Xs.C16
